@@ -298,6 +298,72 @@ def _check_prog_defaults(rep, ir, schema, case):
             visit(f"@{d['name']}({a['name']})", a, obj.args[a["name"]])
 
 
+def run_shared_defaults(rep, lines, meta):
+    """Default objects shared between inputs of different types (and between schemas): a GraphQLDefaultInput is a
+    plain value holder, so using ONE object for several arguments must be indistinguishable from using equal
+    separate objects - whatever a printer, coercer or validator memoises on it.  Every ordered pair of applicable
+    types per value; the shared variant goes through the full round-trip oracle and must print like the separate one;
+    then the same objects are reused in a second schema with the types swapped (state left behind by the first print)."""
+    import itertools
+
+    import graphql as G
+    from graphql.type import GraphQLDefaultInput
+
+    def types():
+        color = G.GraphQLEnumType("Color", {"RED": "RED", "GREEN": "GREEN"})
+        j = G.GraphQLScalarType("J")
+        inp_i = G.GraphQLInputObjectType("InI", {"a": G.GraphQLInputField(G.GraphQLInt)})
+        inp_f = G.GraphQLInputObjectType("InF", {"a": G.GraphQLInputField(G.GraphQLFloat)})
+        return {
+            "Color": color, "String": G.GraphQLString, "ID": G.GraphQLID, "J": j, "Int": G.GraphQLInt,
+            "Float": G.GraphQLFloat, "Boolean": G.GraphQLBoolean, "[Int]": G.GraphQLList(G.GraphQLInt),
+            "[Float]": G.GraphQLList(G.GraphQLFloat), "[ID]": G.GraphQLList(G.GraphQLID),
+            "[String!]": G.GraphQLList(G.GraphQLNonNull(G.GraphQLString)), "InI": inp_i, "InF": inp_f,
+        }
+
+    table = [
+        ("RED", ["Color", "String", "ID", "J", "[String!]"]), ("GREEN", ["String", "Color", "J"]),
+        (1, ["Int", "Float", "ID", "J", "[Int]", "[Float]"]), ("1", ["ID", "String", "J"]), (True, ["Boolean", "J"]),
+        (1.5, ["Float", "J", "[Float]"]), ([1, 2], ["[Int]", "[Float]", "[ID]", "J"]), ({"a": 1}, ["InI", "InF", "J"]),
+        (None, ["String", "Int", "Color", "J"]),
+    ]
+
+    def mk(tys, names, defaults):
+        args = {f"a{i}": G.GraphQLArgument(tys[n], default=d) for i, (n, d) in enumerate(zip(names, defaults))}
+        return G.GraphQLSchema(G.GraphQLObjectType("Query", {"f": G.GraphQLField(G.GraphQLInt, args=args)}), types=[tys[n] for n in ("Color", "J", "InI", "InF")])
+
+    for value, names in table:
+        for pair in itertools.permutations(names, 2):
+            case = {"shared_default": repr(value), "types": list(pair)}
+            tys = types()
+            d = GraphQLDefaultInput(value=value)
+            shared = mk(tys, pair, [d, d])
+            sep = mk(tys, pair, [GraphQLDefaultInput(value=value), GraphQLDefaultInput(value=value)])
+            if G.validate_schema(sep):
+                continue
+            rep.stats["shared_default_cases"] = rep.stats.get("shared_default_cases", 0) + 1
+            if G.validate_schema(shared):
+                rep.failures.append(Failure("shared-default-object", "a schema is valid with separate default objects but invalid when they are one object", case, [e.message for e in G.validate_schema(shared)][:2], [], "C17 defaults (object sharing)"))
+                continue
+            want = G.print_schema(sep)
+            text = check_schema(rep, shared, case, lines, meta)
+            if text is not None and text != want:
+                rep.failures.append(Failure("shared-default-object", "sharing one GraphQLDefaultInput between inputs of different types changes the printed schema", dict(case, printed=text), text, want, "C17 defaults (object sharing)"))
+            # the same object, now at the other type first, in a fresh schema (after the prints above)
+            tys2 = types()
+            again = mk(tys2, pair[::-1], [d, d])
+            want2 = G.print_schema(mk(types(), pair[::-1], [GraphQLDefaultInput(value=value), GraphQLDefaultInput(value=value)]))
+            try:
+                got2 = G.print_schema(again)
+            except Exception as e:  # noqa: BLE001
+                got2 = f"{type(e).__name__}: {e}"[:200]
+            rep.evaluations += 1
+            if got2 != want2:
+                rep.failures.append(Failure("shared-default-object", "a default object used in an earlier schema prints differently in the next one", dict(case, second=True), got2, want2, "C17 defaults (object sharing)"))
+            if default_semantics(again) != default_semantics(mk(types(), pair[::-1], [GraphQLDefaultInput(value=value), GraphQLDefaultInput(value=value)])):
+                rep.failures.append(Failure("shared-default-object", "a default object used in an earlier schema coerces differently in the next one", dict(case, second=True), None, None, "C17 defaults (object sharing)"))
+
+
 def run_corpus(rep, lines, meta):
     import graphql as G
 
@@ -336,6 +402,7 @@ def _work(args):
     lines, meta = [], []
     if with_corpus:
         run_corpus(rep, lines, meta)
+        run_shared_defaults(rep, lines, meta)
     for seed, idx, mode in cases:
         try:
             run_case(rep, seed, idx, mode, lines, meta)
